@@ -1703,8 +1703,10 @@ class Segment(Element):
             super(Segment, self).__init__(name, parent, reference, version,
                                           validation_level, traversal_parent)
             self.allow_infinite_children = True
-            self._last_allowed_child_index = 0
-            self._last_child_index = 0
+            # the fields that a message profile describes are encoded by name: the open-ended ones follow them
+            described = [int(n[4:]) for n in self.ordered_children or []]
+            self._last_allowed_child_index = max(described) if described else 0
+            self._last_child_index = self._last_allowed_child_index
         else:
             super(Segment, self).__init__(name, parent, reference, version,
                                           validation_level, traversal_parent)
